@@ -65,6 +65,18 @@ fn main() {
             props::c12::debug_trace(1);
             return;
         }
+        "miri-codec" => {
+            props::miri::codec(p.seed);
+            return;
+        }
+        "miri-table" => {
+            props::miri::table(p.seed);
+            return;
+        }
+        "miri-cache" => {
+            props::miri::cache(p.seed);
+            return;
+        }
         "poolsizes" => {
             props::smoke::pool_sizes();
             return;
